@@ -5,7 +5,7 @@ confirm the demonstration (exit 0 on the clean copy, 1 on the patched copy), run
 quick tier with QV_REPO=<patched copy> (and the thorough tier if the quick tier misses), record the
 outcome in seeded/RESULTS.json, delete the scratch copies.  /repo itself is never modified.
 
-usage: python -m qv.seeded [--only <substring>] [--no-thorough] [--all-properties]
+usage: python -m qv.seeded [--only <substring>[,<substring>...]] [--no-thorough] [--all-properties]
 """
 import argparse
 import glob
@@ -52,7 +52,7 @@ def main(argv=None):
         results = {r["id"]: r for r in json.load(open(respath))}
     for d in sorted(glob.glob(os.path.join(VERIF, "seeded", "*", ""))):
         sid = os.path.basename(os.path.dirname(d))
-        if a.only and a.only not in sid:
+        if a.only and not any(x and x in sid for x in a.only.split(",")):
             continue
         if a.pending and sid in results:
             continue
@@ -61,6 +61,10 @@ def main(argv=None):
         meta = json.load(open(os.path.join(d, "meta.json")))
         pid = meta["property"]
         rec = {"id": sid, "property": pid, "title": meta.get("title", "")}
+        if not a.tests and sid in results:        # keep the recorded repository-test outcome of an earlier run
+            for k_ in ("tests_exit", "tests_summary"):
+                if k_ in results[sid]:
+                    rec[k_] = results[sid][k_]
         clean = make_copy()
         patched = make_copy()
         try:
